@@ -68,6 +68,7 @@ fn main() {
         "cli-pipeline" => cli::pipeline(&a),
         "cli-histories" => cli::histories(&a),
         "cli-corpus" => cli_corpus::run(&a),
+        "cli-eval" => cli_corpus::run_eval(&a),
         "cli-mecab" => cli::mecab(&a),
         "record-dict" => dictops::record(&a),
         "replay-dict" => dictops::replay(&a),
